@@ -328,7 +328,8 @@ static int append_entry(Rng& r, Plan& pl, int kind, int task, int slot0, const s
       PPaths ip = gen_paths(r, mc.mag, maxpaths, maxpts, z, nullptr); double delta, miter, arc; pick_offset_params(r, extent_of(ip), count_pts(ip), delta, miter, arc, mc.mag);
       if (r.chance(0.5)) { Op o = mkop("x_inflate64", task); o.d = {delta, miter, arc}; o.i = {(int64_t)r.below(4), (int64_t)r.below(5), (int64_t)r.below(2), (int64_t)r.below(2), (int64_t)(r.chance(0.1) ? 1 : 0)}; setP(o, 0, ip); push(o); }
       else { int prec = r.chance(0.05) ? -9 : (int)r.range(-8, 8); int pc = prec < -8 ? -8 : prec; double sc = std::pow(10.0, pc);
-        Op o = mkop("x_inflateD", task); o.d = {delta / sc, miter, arc / sc}; o.i = {(int64_t)r.below(4), (int64_t)r.below(5), (int64_t)r.below(2), (int64_t)r.below(2), (int64_t)(r.chance(0.1) ? 1 : 0), prec}; setD(o, 0, to_d(ip, sc, r, true)); push(o); }
+        // nb: the export layer passes arc_tolerance to ClipperOffset unscaled (unlike InflatePaths(PathsD)), so it is given in scaled units here
+        Op o = mkop("x_inflateD", task); o.d = {delta / sc, miter, arc}; o.i = {(int64_t)r.below(4), (int64_t)r.below(5), (int64_t)r.below(2), (int64_t)r.below(2), (int64_t)(r.chance(0.1) ? 1 : 0), prec}; setD(o, 0, to_d(ip, sc, r, true)); push(o); }
       return 0; }
     case 13: {  // C export: rect clip
       MagClass mc = pick_mag(r, cfg, false); Frame f = make_frame(r, mc.mag);
@@ -370,8 +371,8 @@ Plan gen_c10(uint64_t seed, uint64_t run, const std::string& cfg) {
   Rng g(mix64(base, tag64("gen"))); Rng e(mix64(base, tag64("env")));
   pl.env = e.next() | 1;
   bool z = cfg.find('Z') != std::string::npos;
-  int sz = (int)g.below(10);
-  int maxpaths = sz < 6 ? 2 : (sz < 9 ? 4 : 8), maxpts = sz < 4 ? 6 : (sz < 8 ? 14 : (sz < 9 ? 40 : 100));
+  int sz = (int)g.below(100);
+  int maxpaths = sz < 60 ? 2 : (sz < 92 ? 4 : 8), maxpts = sz < 55 ? 6 : (sz < 88 ? 14 : (sz < 98 ? 40 : 100));
   int kind = (int)(run % N_ENTRY_KINDS);                         // stratified: every entry class is visited
   int used = append_entry(g, pl, kind, 0, 0, cfg, z, maxpaths, maxpts, -1);
   if (g.chance(0.15)) append_entry(g, pl, (int)g.below(N_ENTRY_KINDS), 0, used, cfg, z, 2, 8, -1);   // short histories (phase C)
@@ -432,6 +433,10 @@ static void gen_offset_alone_history(Rng& g, Plan& pl, bool z) {
     for (int gi = 0; gi < ng; ++gi) {
       int et = g.chance(0.4) ? 0 : (int)g.range(1, 4); int jt = (int)g.below(4);
       int np = (int)g.range(1, 3);
+      if (g.chance(0.06)) {                       // a group that holds nothing but an empty path
+        Op a = mkop("f_addpaths"); a.o = o; a.i = {jt, et}; PPaths ep; ep.push_back(PPath()); setP(a, 0, ep); pl.ops.push_back(a);
+        continue;
+      }
       bool single = np == 1 && g.chance(0.4);
       Op a = mkop(single ? "f_addpath" : "f_addpaths"); a.o = o; a.i = {jt, et};
       setP(a, 0, layout_cells(g, np, cell, pitch, next_cell, et, sign, z)); pl.ops.push_back(a);
